@@ -291,6 +291,11 @@ func runL3(server bool, ops []string, emit func(string)) {
 			emit("TIMING")
 			continue
 		}
+		if f[0] == "wait" && doubleTimeout(out) {
+			tainted = true
+			emit("TIMING")
+			continue
+		}
 		if f[0] != "wait" && strings.Contains(out, ":timeout:") {
 			tainted = true
 			emit("TIMING")
